@@ -51,7 +51,11 @@ def run(ctx):
                 continue
             same_order = ords["cy"] is not None and ords["cy"] == ords["py"]
             diff = float(np.max(np.abs(out["cy"] - out["py"]))) if n else 0.0
-            bound = 8 * n * 2.0 ** -53 * scale * (1 + np.log2(n + 1))
+            # theorem C13_round_twin + C13_round_A_le: two runs of this program under the standard model of binary64 arithmetic differ by at most
+            # 2 * ((1+eps)^(n+m+3) - 1) * 2*M*H_n; a factor 2 of slack is left for harmless variations that add a rounding per term (e.g. multiplying by a reciprocal)
+            import math
+            H_n = sum(1.0 / k for k in range(1, n + 1)) if n <= 4096 else (math.log(n) + 0.5772156649 + 1.0 / (2 * n))
+            bound = 2 * (2 * math.expm1((n + m + 3) * math.log1p(2.0 ** -53)) * 2 * scale * H_n)
             worst_rel = max(worst_rel, diff / scale)
             if ties and not same_order:
                 ctx.dist["tie_orders_differ_between_kernels"] += 1
